@@ -153,6 +153,37 @@ def lookup_contract(res, rng, n):
                           getattr(got, '__intypes__', None), getattr(exp, '__intypes__', None))
 
 
+def from_and_where(res):
+    """FROM <expression> and WHERE <expression> together keep exactly the rows both keep (NULL and false both exclude), whatever
+    the top-level operator of either expression (OR, COALESCE, NOT, AND, a bare column)"""
+    from harness import ledger
+    conn = ledger.connect(ledger.LEDGER_A)
+    base = 'SELECT id, account, number, currency'
+    froms = ['year = 2020', 'month = 1 OR month = 2', "NOT flag = '!'", "coalesce(payee ~ 'B', FALSE)", 'day > 5 AND day < 25']
+    wheres = ["account ~ 'Assets' OR number > 100", "coalesce(number < 0, TRUE)", "NOT account ~ 'Expenses'", "account ~ 'Assets' AND number > 0",
+              "number > 50 OR currency = 'HOOL' OR account ~ 'Income'", "coalesce(cost_number > 0, number > 0, FALSE)"]
+    key = lambda r: (r[0], r[1], r[2], r[3])
+    for f in froms:
+        try:
+            only_f = conn.execute(f'{base} FROM {f}').fetchall()
+        except Exception as e:  # noqa
+            res.violation('h01:from-where:from:' + f, 'FROM expression executes', {'from': f}, f'{type(e).__name__}: {e}', 'rows')
+            continue
+        for w in wheres:
+            res.case(('from-where', f, w), {'from': f, 'where': w})
+            try:
+                only_w = conn.execute(f'{base} WHERE {w}').fetchall()
+                both = conn.execute(f'{base} FROM {f} WHERE {w}').fetchall()
+            except Exception as e:  # noqa
+                res.violation('h01:from-where:' + f + ':' + w, 'FROM and WHERE together execute', {'from': f, 'where': w}, f'{type(e).__name__}: {e}', 'rows')
+                continue
+            keep = {key(r) for r in only_w}
+            want = [r for r in only_f if key(r) in keep]
+            if [tuple(r) for r in both] != [tuple(r) for r in want]:
+                res.violation('h01:from-where:' + f + ':' + w, 'a row is kept exactly when the FROM condition and the WHERE condition are both true, in source order',
+                              {'from': f, 'where': w}, (len(both), [tuple(r) for r in both][:3]), (len(want), [tuple(r) for r in want][:3]))
+
+
 def build_items(tier, seed):
     rng = random.Random(seed)
     allrows = tuple(range(len(R.ROWS)))
@@ -195,6 +226,7 @@ def run(tier, seed):
             res.violation('h01:' + clause + ':' + case['query'][:100], clause, case, obs, exp)
     registry_sweep(res)
     lookup_contract(res, random.Random(seed), 300 if tier == 'quick' else 5000)
+    from_and_where(res)
     res.scopes = {'depth1_exhaustive': True, 'rows': len(R.ROWS)}
     return res.asdict()
 
